@@ -198,11 +198,23 @@ def vectors(ctx):
             for _ in range(ctx.pick(2, 20)):
                 f = gen.set_bits(gen.rand_frame_df(rng, df), 33, 37, tc)
                 add_all(f, ["tc", df, tc], isfns=False)
-    # (4) Mach / IAS rule on the CAS grid: DF20, altitude k*1000 ft, IAS around CAS(M, h) +- 20
-    for k in range(ctx.pick(300, 6000)):
+    # (4) Mach / IAS rule: DF20, altitudes on the 1000-ft grid and in between, below sea level too; IAS anywhere and - half of the
+    # cases - within a few knots of the two 20-kt limits (the input is only CHOSEN with this float formula, the verdict is the spec's)
+    def cas_kt(m, alt_ft):
+        import math
+        h = alt_ft * 0.3048
+        T = max(288.15 - 0.0065 * h, 216.65)
+        rho = 1.225 * (T / 288.15) ** 4.256848 * math.exp(-max(0.0, h - 11000.0) / 6341.552)
+        p = rho * 287.05287 * T
+        qdyn = p * ((1 + 0.2 * m * m) ** 3.5 - 1)
+        return math.sqrt(7 * 101325.0 / 1.225 * ((qdyn / 101325.0 + 1) ** (2 / 7.0) - 1)) / 0.514444
+
+    for k in range(ctx.pick(600, 12000)):
         mach = rng.randrange(50, 251)
-        alt = rng.randrange(0, 46) * 1000
+        alt = rng.choice([rng.randrange(-1, 46) * 1000, rng.randrange(-40, 1800) * 25, rng.randrange(-40, 1) * 25])
         ias = rng.randrange(0, 501)
+        if k % 2:
+            ias = max(0, min(1023, int(round(cas_kt(mach * 0.004, alt))) + rng.choice([-27, -23, -21, -20, -19, -17, 17, 19, 20, 21, 23, 27])))
         mb = pack(60, [1, 0, rng.randrange(1024), 1, ias, 1, mach, 0, 0, 0, 0, 0, 0])
         f = commb_frame(rng, 20, mb, alt_q(alt))
         V.append({"fn": "commb.is60", "frame": f, "case": ["aero", mach, alt, ias]})
